@@ -14,7 +14,8 @@ DRIVER = "C06"
 RULE = (
     "programs of the core fragment (qubit / int / bool / struct / nested struct / tuple variables; allocation, move, owned and "
     "borrowed calls, measure/discard/h/cx, tuple build/unpack, tuple element and field read, field assign, return; if / while / "
-    "while True / break / continue, `measure(q)` as branch / loop condition, variables re-bound at a type of the other kind). "
+    "while True / break / continue, `measure(q)` as branch / loop condition, variables re-bound at a type of the other kind, "
+    "nested call expressions as arguments: idq(q), bq(q), cons(q, q), mk() lent to a borrowing callee). "
     "Streams: (1) the hand-written corpus (facts of DESIGN.md, gap and fix witnesses, near-miss shapes); (1b) a systematic "
     "scope of 192 programs that re-bind a variable qubit<->int in a block it flows into; (2) a small "
     "scope enumerated systematically: 5 control skeletons x {owned, borrowed, local} x 4 slots x 5 actions, on a qubit and on a "
@@ -30,50 +31,51 @@ RULE = (
 )
 ASSUMPTIONS = [
     "the Lean model Model/Linearity.lean is hand-written; its agreement with linearity_checker.py is established by the "
-    "same-input correspondence run here (verdict and error class on the CFG extracted from the real compiler)",
-    "the harness' translation of the checked AST (PlaceNode / GlobalCall / Tuple / TupleUnpack / Return / branch predicate) into "
-    "the model's flat statements and of types into leaf ids is trusted (own code, independent of leaf_places); programs it cannot "
-    "translate are skipped and counted",
+    "same-input correspondence run here (verdict, error class and place-level live rows on the CFG extracted from the real compiler)",
+    "the harness' translation of the checked AST into the model's statements is trusted: own traversal in the visitor's "
+    "order (PlaceNode / GlobalCall incl. nested calls / Tuple / TupleUnpack / Return / branch predicate -> use / give / "
+    "dropAfter actions, then targets), leaves and their kinds from the occurrence's type (not from leaf_places); programs "
+    "it cannot translate are skipped and counted",
     "the place-level liveness worklist is the C09 model (Model/Dataflow.lean), characterised by the C09 theorem liveRun_correct "
     "for any scheduler; that it finishes within the model's fuel is proved here (live_terminates), so the real worklist's pop "
-    "order need not be controlled: the result is order-independent",
-    "reading of 'leak on an infinite path': a linear value is leaked when it is owned at a point from which no continuation "
+    "order need not be controlled",
+    "reading of 'leak on an infinite path': a linear value is leaked when it is held at a point from which no continuation "
     "reads it (so `while True: pass` leaks an owned qubit, `while c: pass; use(q)` does not); a borrowed value may idle on a "
     "path that never returns",
-    "every CFG handed to the model is checked to have the shape Prog.WF (driver reply bad-wf otherwise) and to satisfy RowsOK, "
-    "the signature hypothesis of lin_complete_rows_partial (executable check in the driver, itself not verified); leaf types of "
-    "the fragment are linear (qubit) or copyable+droppable (int, bool)",
+    "every CFG handed to the model is checked to have the shape Prog.WF and to be well-kinded (Prog.KindsOK: each occurrence "
+    "typed at the kind of the binding it refers to, rows agree with the bindings flowing in) by executable checks that are "
+    "proved to imply the hypotheses (wf_of_wfb, kindsOK_of_b); the pass-2 'used but live' check takes the kind of a live place "
+    "from the successor's row where the code takes it from the row of the using block (equal on well-kinded CFGs); leaf types "
+    "of the fragment are linear (qubit) or copyable+droppable (int, bool)",
 ]
 UNMODELLED = [
-    "nested expressions (calls as arguments), comprehensions, subscripts/arrays, nested functions and captures, "
-    "partial application, modifiers (`with control`), affine types (non-copyable but droppable), generics",
-    "variables re-bound at a type of different copyability: outside the Lean model (a leaf has one kind there; such CFGs are "
-    "skipped for the model) but inside the generator and the oracle, so real-vs-oracle still covers them (fix 0c7baf7)",
-    "the surface->CFG builder and the type checker's block signatures (the model takes the checked CFG; C03/C08 cover them); "
-    "a place that is in no scope is the model outcome `crash`, never observed",
+    "comprehensions, subscripts/arrays, nested functions and captures, partial application, modifiers (`with control`), "
+    "affine types (non-copyable but droppable), generics, field access on unnamed values (`mkS().a`)",
+    "the surface->CFG builder and the type checker's block signatures (the model takes the checked CFG; C03/C08 cover them)",
     "diagnostic payload beyond the error class (spans, notes); when a place is both used later for real and implicitly returned "
     "the model allows AlreadyUsedError or BorrowSubPlaceUsedError (the real choice depends on dict order)",
 ]
 MANIFEST = {
     "level_text": "Lean theorems over an executable model of linearity_checker.py (both passes; place-level liveness = the C09 "
-    "worklist), for all CFGs of the flat core fragment with arbitrary decomposition of places into leaves (variables, struct "
-    "fields, tuple elements, nested), no size bound. lin_sound: the model accepts => on every path from the entry (finite or "
-    "infinite) every linear leaf is used only while owned and never overwritten while owned, exactly the borrowed leaves are "
-    "owned at the exit, an owned leaf always has a continuation that reads it (a borrowed one may idle on a path that never "
-    "returns), and no whole borrowed variable is moved/consumed/returned/reassigned nor a linear result dropped in reachable "
-    "code. lin_complete_partial: outside two known gaps (borrowed arguments + non-terminating regions: NoGap) these conditions "
-    "imply that the model raises no user error (lin_complete_partial), and with block signatures that cover what is read "
-    "(RowsOK, checked on every real CFG) that it accepts (lin_complete_rows_partial; lin_no_crash_partial: no internal error; "
-    "live_terminates: the liveness worklist always finishes within the model's fuel, any visiting order). "
-    "lin_complete_false_G1/G2: the "
-    "unrestricted converse is false of the code (concrete witnesses, replayed on the real checker, known findings). Tie on every "
-    "run: generated programs are checked by the real check(), the CFG given to check_cfg_linearity is extracted and replayed in "
-    "the model (verdict + error class), and an independent exact state-space oracle on the abstract program gives the expected "
-    "verdict (quick ~400 programs; thorough: all 18750 programs of a small scope + 50000 random near-misses).",
+    "worklist), for all CFGs of the core fragment: statements are the visitor's sequences of place-level actions (nested call "
+    "expressions with their order of consumption included), places decompose arbitrarily into leaves (variables, struct fields, "
+    "tuple elements, nested), and the kind (linear / copyable) belongs to the binding, not to the name (variables re-bound at a "
+    "type of the other kind, the shape of fix 0c7baf7); no size bound. lin_sound: the model accepts a well-kinded CFG => on every "
+    "path from the entry (finite or infinite) a linear binding is used only while its value is held, nothing is assigned while a "
+    "linear value is held under the leaf, exactly the borrowed leaves are held at the exit, a held value always has a continuation "
+    "that reads it (a borrowed one may idle on a path that never returns), and the path-independent ownership rules hold in "
+    "reachable code. lin_complete_partial: outside two known gaps (borrowed arguments + non-terminating regions: NoGap) these "
+    "conditions imply that the model accepts (no user error, no internal error, no fuel exhaustion: live_terminates). "
+    "lin_complete_false_G1/G2: the unrestricted converse is false of the code (concrete witnesses, replayed on the real checker, "
+    "known findings). Tie on every run: generated programs are checked by the real check(), the CFG given to check_cfg_linearity is "
+    "extracted and replayed in the model (verdict + error class + place-level live rows), and an independent exact state-space "
+    "oracle on the abstract program gives the expected verdict (quick ~550 programs; thorough: all 18750 programs of a small scope "
+    "+ 192 re-binding programs + 50000 random near-misses).",
     "level_note": "Trusted: Lean kernel + propext/Classical.choice/Quot.sound; the statement of path goodness in Spec/C06.lean "
-    "(my reading of 'leak' on infinite paths: owned but dead); the extraction of the real CFG into the model's input and the shape "
-    "assumption Prog.WF (checked per case); the generator's reach (sampling; exhaustive only in the small scope). The theorems are "
-    "about the model; nested expressions, arrays, comprehensions, closures, affine types are outside the fragment.",
+    "(my reading of 'leak' on infinite paths: held but dead); the extraction of the real CFG into the model's input, with the shape "
+    "and well-kindedness hypotheses checked per case by verified executable checks; the generator's reach (sampling; exhaustive only "
+    "in the small scopes). The theorems are about the model; arrays/subscripts, comprehensions, closures, affine types are outside "
+    "the fragment.",
     "technique": "Lean 4 proof over a hand-written model (using the C09 liveness theorems) + differential correspondence on the real "
     "compiler's CFG + independent exact path-semantics oracle",
     "design_ref": "DESIGN.md §5 C06",
@@ -197,6 +199,17 @@ def show_place(pl):
     return s
 
 
+def is_call_arg(a):
+    """an argument is a place (var, path) or a nested call ("c", fname, [args])"""
+    return a[0] == "c" and len(a) == 3 and isinstance(a[1], str) and isinstance(a[2], list)
+
+
+def show_arg(a):
+    if is_call_arg(a):
+        return f"{a[1]}({', '.join(show_arg(x) for x in a[2])})"
+    return show_place(a)
+
+
 def show_cond(c):
     """a condition is a bool variable name or ("measure", place)"""
     return c if isinstance(c, str) else f"measure({show_place(c[1])})"
@@ -219,7 +232,7 @@ def show_prog(prog):
         for s in ss:
             k = s[0]
             if k == "call":
-                rhs = f"{s[2]}({', '.join(show_place(a) for a in s[3])})"
+                rhs = f"{s[2]}({', '.join(show_arg(a) for a in s[3])})"
                 lines.append(pad + (", ".join(show_place(t) for t in s[1]) + " = " if s[1] else "") + rhs)
             elif k == "move":
                 rhs = "1" if not s[2] else (show_place(s[2][0]) if len(s[2]) == 1 else "(" + ", ".join(show_place(a) for a in s[2]) + ")")
@@ -271,17 +284,31 @@ def oracle(prog):
         bl += lin_leaves((v, ()))
     EXIT = new([("use", l) for l in bl], [], [])
 
+    def call_ops(fname, args):
+        """uses of the arguments in order (a nested call is evaluated in place, with its own hand-backs),
+        then the hand-backs of this call's borrowed place arguments"""
+        params, _ret = FUNS[fname]
+        ops, static, gives = [], [], []
+        for (m, _t), a in zip(params, args):
+            if is_call_arg(a):
+                o2, s2 = call_ops(a[1], a[2])
+                ops += o2
+                static += s2
+                r2 = FUNS[a[1]][1]
+                if m == "b" and r2 and _ret_has_lin(r2):
+                    static.append("DropAfterCall")
+                continue
+            if m != "b" and a[1] == () and a[0] in borrowed_vars:
+                static.append("NotOwned")
+            ops += [("use", l) for l in lin_leaves(a)]
+            if m == "b":
+                gives += [("give", l) for l in lin_leaves(a)]
+        return ops + gives, static
+
     def ops_of(s):
         if s[0] == "call":
-            params, ret = FUNS[s[2]]
-            ops, static = [], []
-            for (m, _t), a in zip(params, s[3]):
-                if m != "b" and a[1] == () and a[0] in borrowed_vars:
-                    static.append("NotOwned")
-                ops += [("use", l) for l in lin_leaves(a)]
-            for (m, _t), a in zip(params, s[3]):
-                if m == "b":
-                    ops += [("give", l) for l in lin_leaves(a)]
+            _params, ret = FUNS[s[2]]
+            ops, static = call_ops(s[2], s[3])
             if not s[1] and ret and _ret_has_lin(ret):
                 static.append("Dropped")
             tg = s[1]
@@ -464,11 +491,13 @@ class Unsupported(Exception):
 
 
 class _Enc:
-    """numbers leaves, translates the checked AST into the model's statements"""
+    """numbers leaves, translates the checked AST into the model's statements: for every statement the
+    place-level actions of the visitor in its order (own traversal, mirroring visit_GlobalCall /
+    _visit_call_args / _reassign_inout_args / visit_Return / generic_visit), each leaf with the kind of
+    the occurrence's type"""
 
     def __init__(self):
         self.ids = {}
-        self.lin = {}
         self.vars = {}
 
     def var(self, name):
@@ -478,10 +507,7 @@ class _Enc:
         lin = not ty.copyable
         if (not ty.droppable) != lin:
             raise Unsupported(f"affine type {ty}")
-        i = self.ids.setdefault(key, len(self.ids))
-        if self.lin.setdefault(i, lin) != lin:
-            raise Unsupported("a leaf changes its kind")
-        return i
+        return self.ids.setdefault(key, len(self.ids)), lin
 
     def ty_leaves(self, key, ty):
         from guppylang_internals.tys.ty import StructType, TupleType
@@ -514,7 +540,7 @@ class _Enc:
         ls = self.ty_leaves(key, place.ty)
         v = str(self.var(place.name)) if isinstance(place, Variable) else "-"
         is_leaf = "0" if isinstance(place.ty, (StructType, TupleType)) else "1"
-        return f"(p {v} {is_leaf} {' '.join(map(str, ls))})".replace(" )", ")")
+        return "(p " + " ".join([v, is_leaf] + [f"({i} {1 if k else 0})" for i, k in ls]) + ")"
 
     def pattern(self, node):
         from guppylang_internals.nodes import PlaceNode, TupleUnpack
@@ -530,102 +556,82 @@ class _Enc:
             return out
         raise Unsupported("target " + type(node).__name__)
 
-    def call(self, node):
+    def expr(self, node, kind="0"):
+        """the visitor's actions on an expression; `kind` is the use kind of a place at this position"""
         import ast
+        from guppylang_internals.ast_util import get_type
         from guppylang_internals.definition.custom import CustomFunctionDef
         from guppylang_internals.engine import ENGINE
-        from guppylang_internals.nodes import PlaceNode
+        from guppylang_internals.nodes import GlobalCall, PlaceNode
         from guppylang_internals.tys.ty import InputFlags
-        func = ENGINE.get_parsed(node.def_id)
-        if isinstance(func, CustomFunctionDef) and not func.has_signature:
-            flags = [False] * len(node.args)
-        else:
-            fty = func.ty.instantiate(node.type_args)
-            flags = [InputFlags.Inout in inp.flags for inp in fty.inputs]
-        args = []
-        for fl, a in zip(flags, node.args, strict=True):
-            if isinstance(a, PlaceNode):
-                args.append(f"({'b' if fl else 'o'} {self.place(a.place)})")
-            elif isinstance(a, ast.Constant):
-                if fl:
-                    raise Unsupported("constant passed to a borrowed parameter")
-            else:
-                raise Unsupported("nested argument " + type(a).__name__)
-        return "(" + " ".join(args) + ")"
-
-    def places_of_value(self, v):
-        """value that is a place / tuple of places / constant -> list of place sexps, else None"""
-        import ast
-        from guppylang_internals.nodes import PlaceNode
-        if isinstance(v, PlaceNode):
-            return [self.place(v.place)]
-        if isinstance(v, ast.Constant):
+        if isinstance(node, PlaceNode):
+            return [f"(u {self.place(node.place)} {kind})"]
+        if isinstance(node, ast.Constant):
             return []
-        if isinstance(v, ast.Tuple) and all(isinstance(e, PlaceNode) for e in v.elts):
-            return [self.place(e.place) for e in v.elts]
-        return None
+        if isinstance(node, ast.Tuple):
+            out = []
+            for e in node.elts:
+                out += self.expr(e)
+            return out
+        if isinstance(node, GlobalCall):
+            func = ENGINE.get_parsed(node.def_id)
+            if isinstance(func, CustomFunctionDef) and not func.has_signature:
+                flags = [False] * len(node.args)
+            else:
+                fty = func.ty.instantiate(node.type_args)
+                flags = [InputFlags.Inout in inp.flags for inp in fty.inputs]
+            out = []
+            for fl, a in zip(flags, node.args, strict=True):
+                out += self.expr(a, "1" if fl else "0") if isinstance(a, PlaceNode) else self.expr(a)
+            for fl, a in zip(flags, node.args, strict=True):
+                if fl:
+                    if isinstance(a, PlaceNode):
+                        out.append(f"(g {self.place(a.place)})")
+                    elif not get_type(a).droppable:
+                        out.append("(d)")
+            return out
+        raise Unsupported("expression " + type(node).__name__)
 
     def stmt(self, st):
         import ast
         from guppylang_internals.ast_util import get_type
-        from guppylang_internals.nodes import GlobalCall
         if isinstance(st, ast.Assign):
             [tgt] = st.targets
-            tg = "(" + " ".join(self.pattern(tgt)) + ")"
-            ps = self.places_of_value(st.value)
-            if ps is not None:
-                return f"(move {tg} ({' '.join(ps)}))"
-            if isinstance(st.value, GlobalCall):
-                return f"(call {tg} {self.call(st.value)} 0)"
-            raise Unsupported("assign value " + type(st.value).__name__)
+            return f"(st ({' '.join(self.expr(st.value))}) ({' '.join(self.pattern(tgt))}) 0)"
         if isinstance(st, ast.Expr):
-            if isinstance(st.value, GlobalCall):
-                return f"(call () {self.call(st.value)} {0 if get_type(st.value).droppable else 1})"
-            raise Unsupported("expr " + type(st.value).__name__)
+            return f"(st ({' '.join(self.expr(st.value))}) () {0 if get_type(st.value).droppable else 1})"
         if isinstance(st, ast.Return):
-            if st.value is None:
-                return "(ret)"
-            ps = self.places_of_value(st.value)
-            if ps is None:
-                raise Unsupported("return value " + type(st.value).__name__)
-            return ("(ret " + " ".join(ps) + ")").replace(" )", ")")
+            acts = [] if st.value is None else self.expr(st.value)
+            return f"(st ({' '.join(acts)}) () 0)"
         raise Unsupported("statement " + type(st).__name__)
 
     def prog(self, cfg):
-        from guppylang_internals.nodes import PlaceNode
         from guppylang_internals.tys.ty import InputFlags
-        rows, succ, stmts = [], [], []
-        for bb in cfg.bbs:
-            ls = []
-            for v in bb.sig.input_row:
-                ls += self.ty_leaves((v.name,), v.ty)
-            rows.append(f"({bb.idx} {' '.join(map(str, ls))})".replace(" )", ")"))
-            succ.append(f"({bb.idx} {' '.join(str(s.idx) for s in bb.successors)})".replace(" )", ")"))
-            ss = [self.stmt(s) for s in bb.statements]
-            if bb.branch_pred is not None:
-                from guppylang_internals.nodes import GlobalCall
-                if isinstance(bb.branch_pred, PlaceNode):
-                    ss.append(f"(move () ({self.place(bb.branch_pred.place)}))")
-                elif isinstance(bb.branch_pred, GlobalCall):
-                    # visited like an expression whose (bool) value is consumed by the branch
-                    ss.append(f"(call () {self.call(bb.branch_pred)} 0)")
-                else:
-                    raise Unsupported("branch predicate " + type(bb.branch_pred).__name__)
-            stmts.append(f"({bb.idx} {' '.join(ss)})".replace(" )", ")"))
-        bvars, bleaves = [], []
-        for v in cfg.entry_bb.sig.input_row:
-            if InputFlags.Inout in v.flags:
-                bvars.append(self.var(v.name))
-                bleaves += self.ty_leaves((v.name,), v.ty)
-        lin = [i for i, l in sorted(self.lin.items()) if l]
+        rows, rowlin, succ, stmts = [], [], [], []
 
         def f(tag, xs):
             return "(" + " ".join([tag] + [str(x) for x in xs]) + ")"
 
+        for bb in cfg.bbs:
+            ls = []
+            for v in bb.sig.input_row:
+                ls += self.ty_leaves((v.name,), v.ty)
+            rows.append(f(str(bb.idx), [i for i, _k in ls]))
+            rowlin.append(f(str(bb.idx), [i for i, k in ls if k]))
+            succ.append(f(str(bb.idx), [x.idx for x in bb.successors]))
+            ss = [self.stmt(x) for x in bb.statements]
+            if bb.branch_pred is not None:
+                ss.append(f"(st ({' '.join(self.expr(bb.branch_pred))}) () 0)")
+            stmts.append(f(str(bb.idx), ss))
+        bvars, bleaves = [], []
+        for v in cfg.entry_bb.sig.input_row:
+            if InputFlags.Inout in v.flags:
+                bvars.append(self.var(v.name))
+                bleaves += [i for i, _k in self.ty_leaves((v.name,), v.ty)]
         return " ".join([
-            "(prog", f("lin", lin), f("bvars", bvars), f("bleaves", bleaves), f("blocks", [bb.idx for bb in cfg.bbs]),
-            f("entry", [cfg.entry_bb.idx]), f("exit", [cfg.exit_bb.idx, 1 if cfg.exit_bb.reachable else 0]), f("rows", rows), f("succ", succ),
-            f("stmts", stmts),
+            "(prog", f("bvars", bvars), f("bleaves", bleaves), f("blocks", [bb.idx for bb in cfg.bbs]),
+            f("entry", [cfg.entry_bb.idx]), f("exit", [cfg.exit_bb.idx, 1 if cfg.exit_bb.reachable else 0]),
+            f("rows", rows), f("rowlin", rowlin), f("succ", succ), f("stmts", stmts),
         ]) + ")"
 
 
@@ -673,7 +679,7 @@ def run_real(src):
                     for bb in res.bbs:
                         if bb is res.entry_bb or bb is res.exit_bb:
                             continue
-                        ls = sorted({enc._leaf(enc.place_key(pl), pl.ty) for pl in bb.sig.input_row})
+                        ls = sorted({enc._leaf(enc.place_key(pl), pl.ty)[0] for pl in bb.sig.input_row})
                         rows.append("(" + " ".join(map(str, [bb.idx] + ls)) + ")")
                     note = "live:" + " ".join(rows)
             except Unsupported as u:
@@ -1227,6 +1233,53 @@ def _all_places(ss):
     return out
 
 
+def nestify(prog, rng):
+    """wrap some call arguments into nested calls (order of consumption inside one statement)"""
+    changed = [False]
+
+    def arg(a, mode, ty):
+        if is_call_arg(a) or ty != "Q":
+            return a
+        x = rng.random()
+        if mode == "o":
+            if x < 0.18:
+                changed[0] = True
+                return ("c", "idq", [arg(a, "o", "Q")])
+            if x < 0.21:
+                changed[0] = True
+                return ("c", "bq", [a])          # borrows the place, yields a fresh qubit
+            if x < 0.23:
+                changed[0] = True
+                return ("c", "cons", [a, a])     # consumes and borrows the same place
+        elif mode == "b":
+            if x < 0.04:
+                changed[0] = True
+                return ("c", "mk", [])           # an unnamed qubit lent to the callee
+            if x < 0.08:
+                changed[0] = True
+                return ("c", "idq", [a])         # a moved qubit lent to the callee
+        return a
+
+    def go(ss):
+        out = []
+        for s in ss:
+            if s[0] == "call":
+                params = FUNS[s[2]][0]
+                out.append(("call", s[1], s[2], [arg(a, m, t) for (m, t), a in zip(params, s[3])]))
+            elif s[0] == "if":
+                out.append(("if", s[1], go(s[2]), go(s[3])))
+            elif s[0] == "while":
+                out.append(("while", s[1], go(s[2])))
+            elif s[0] == "wtrue":
+                out.append(("wtrue", go(s[1])))
+            else:
+                out.append(s)
+        return out
+
+    body = go(prog["body"])
+    return ({**prog, "body": body}, changed[0])
+
+
 def gen_case(rng, size):
     """-> (prog, tags)"""
     for _ in range(50):
@@ -1246,6 +1299,10 @@ def gen_case(rng, size):
                     prog, t = m
                     tags.append(t)
                     break
+        if rng.random() < 0.5:
+            prog, ch = nestify(prog, rng)
+            if ch:
+                tags.append("nested")
         return prog, tags
     raise RuntimeError("generator failed")
 
@@ -1282,6 +1339,8 @@ def _has_ctrl(ss):
 def _from_json(x):
     """JSON round trip turns tuples into lists; restore the canonical shape"""
     def pl(p):
+        if p[0] == "c" and len(p) == 3 and isinstance(p[2], list):
+            return ("c", p[1], [pl(a) for a in p[2]])
         return (p[0], tuple(p[1]))
 
     def cd(c):
@@ -1347,10 +1406,10 @@ def evaluate(ctx, cases):
         if req is None:
             ctx.bump("model-skipped:" + note[:40])
             continue
-        if model is not None and "rows-not-covering" in model:
-            ctx.broke("assumption RowsOK (block signatures cover what is read; hypothesis of lin_complete_rows_partial / "
-                      f"lin_no_crash_partial) does not hold on the CFG the real compiler produced for:\n{src}")
-            model = model.replace("-rows-not-covering", "")
+        if model == "bad-kinds":
+            ctx.broke("the CFG the real compiler handed to check_cfg_linearity is not well-kinded (Prog.KindsOK, hypothesis of "
+                      f"the theorems):\n{src}")
+            continue
         if model is not None and model.startswith("ok"):
             if outcome == "ok" and note.startswith("live:"):
                 if " ".join(model.split()[1:]) != note[5:]:
